@@ -57,10 +57,12 @@ NoLeak == LeakSet = {}
 (* lost the flow and NoLeak says nothing)                                    *)
 Reached(s) == \/ s.a \in taintH /\ s.b \in taintC
               \/ s.a \in taintC /\ s.b \in taintH
+              \/ s.a \in taintH \cap taintC \/ s.b \in taintH \cap taintC     \* an accumulated difference finalised in constant time
 Unreached == { i \in DOMAIN G.sanitizers : ~Reached(G.sanitizers[i]) }
+ReachedSet == { i \in DOMAIN G.sanitizers : Reached(G.sanitizers[i]) }
 
 Report == Fixpoint =>
     ndJsonSerialize(IOEnv.VERIF_REPORT,
-        << [leaks |-> LeakSet, unreached |-> Unreached, nh |-> Cardinality(taintH), nc |-> Cardinality(taintC),
+        << [leaks |-> LeakSet, unreached |-> Unreached, reached |-> ReachedSet, nh |-> Cardinality(taintH), nc |-> Cardinality(taintC),
             both |-> Cardinality(taintH \cap taintC), nsan |-> Len(G.sanitizers), ncmp |-> Len(G.compares), nsrch |-> Cardinality(SrcH)] >>)
 =============================================================================
